@@ -110,6 +110,13 @@ impl Block {
 
         // Read the actual data
         let new_offset = file_offset + PREFIX_META_SIZE as u64;
+        // The header is not covered by the checksum: never trust its length beyond the file
+        if (new_offset as usize).saturating_add(actual_entry_size) > self.mmap.len() {
+            return Err(std::io::Error::new(
+                std::io::ErrorKind::InvalidData,
+                "entry length exceeds the file",
+            ));
+        }
         let mut ret_buffer = vec![0; actual_entry_size];
         self.mmap.read(new_offset as usize, &mut ret_buffer);
 
